@@ -304,3 +304,28 @@ class caught_warnings:
 def shrink_repr(v, n=160):
     s = repr(v)
     return s if len(s) <= n else s[:n - 3] + '...'
+
+
+# ---------------------------------------------------------------------------------------------
+# bounded memory for violations (c01-c03): keep only the `keep` smallest witnesses per (kind, tags) in a
+# shard, count all of them in counters['viol:<kind>']; report_counted() restores the true total.
+def add_violation(acc, kind, case, observed, expected, tags, keep=2):
+    acc['counters']['viol:' + kind] = acc['counters'].get('viol:' + kind, 0) + 1
+    tags = sorted(tags)
+    size = len(json.dumps(case, default=str))
+    group = [(i, v) for i, v in enumerate(acc['violations']) if v['kind'] == kind and v['tags'] == tags]
+    v = {'kind': kind, 'case': case, 'observed': observed, 'expected': expected, 'tags': tags}
+    if len(group) < keep:
+        acc['violations'].append(v)
+        return
+    worst_i, worst = max(group, key=lambda iv: len(json.dumps(iv[1]['case'], default=str)))
+    if size < len(json.dumps(worst['case'], default=str)):
+        acc['violations'][worst_i] = v
+
+
+def report_counted(acc, rule, bounds, exhaustive=False, max_violations=25):
+    """report() for accumulators filled with add_violation(): violations_total counts every violation"""
+    rep = report(acc, rule, bounds, exhaustive, max_violations)
+    rep['violations_total'] = sum(n for k, n in acc['counters'].items() if k.startswith('viol:'))
+    rep['violation_groups'] = len({(v['kind'], tuple(v['tags'])) for v in acc['violations']})
+    return rep
